@@ -117,6 +117,9 @@ func (c *Sess) Commit() string {
 }
 
 func (c *Sess) Discard() {
+	if m := c.S.T.Mirror; m != nil {
+		m(rec.Event{Ev: "DiscardInv", W: c.W}) // implementation-level streams only; not part of the API trace
+	}
 	c.Txn.Discard()
 	c.S.T.Add(rec.Event{Ev: "Discard", W: c.W})
 }
